@@ -367,6 +367,18 @@ def m_default_words(draw, ir):
         p["doc"] = "%s %s" % (p["doc"], draw(st.sampled_from(("by default", "the default one", "default behaviour"))))
 
 
+def m_two_announcements(draw, ir):
+    """Prose that announces a default twice, with two different phrases (the first one counts - whichever order a
+    conversion tries the phrases in must not depend on the process)."""
+    p = _pick(draw, ir["params"], lambda p: "doc" in p and "default" not in p)
+    if p is not None:
+        a, b = draw(st.sampled_from(((4, 1), (2, 8), (16, 32))))
+        p["doc"] = "%s %s" % (p["doc"].rstrip("."), draw(st.sampled_from((
+            "Default value is %d. On Windows it defaults to %d." % (a, b),
+            "Defaults to %d. On small machines the default value is %d." % (a, b),
+            "Default: %d. Otherwise defaults to %d." % (a, b)))))
+
+
 def m_prose_punct(draw, ir):
     p = _pick(draw, ir["params"], lambda p: "doc" in p)
     if p is not None:
@@ -655,6 +667,8 @@ def param_tags(p, prev_has_default=False):
             t.add("prose_punct")
         if "default" in doc.lower():
             t.add("default_words")
+        if len(re.findall(r"(?i)defaults to |default value is |default: ", doc)) >= 2:
+            t.add("two_announcements")
         if doc.startswith(("Optional", "(Optional)")):
             t.add("optional_prose")
             if typ is not None and not typ.startswith("Optional["):
